@@ -156,3 +156,58 @@ def procvar_group(case, fast):
     return {"sg": sg, "terms": terms, "devs": devs, "pvs": pvs, "insns": list(sg.opcodes), "var_fd": fd,
             "var_size": args[2], "off_wkc_errors": sg.__dict__["wkc_errors"],
             "dv_off": [devs[d["dev"]].__dict__[f"dv{j}"] for j, d in enumerate(case["dvs"])]}
+
+
+# ---- C05: the bundled devices in a FastSyncGroup, and bare fast groups of several packet layouts ----
+def _fake_terminal(ec, fmmu=False):
+    """a terminal with one 16-bit analog input/output and one digital input/output bit"""
+    from ebpfcat.ebpfcat import EBPFTerminal, PacketDesc, SyncManager
+    T = type("T5", (EBPFTerminal,), {"ain": PacketDesc(SyncManager.IN, 0, "H"), "aout": PacketDesc(SyncManager.OUT, 0, "H"),
+                                     "din": PacketDesc(SyncManager.IN, 2, 0), "dout": PacketDesc(SyncManager.OUT, 2, 1)})
+    t = T(ec)
+    t.position, t.pdos = 7, {}
+    t.pdo_in_sz, t.pdo_out_sz, t.pdo_in_off, t.pdo_out_off = 4, 4, 0x1100, 0x1000
+    t.use_fmmu = fmmu
+    return t
+
+
+DEVICE_NAMES = ("AnalogInput", "AnalogOutput", "DigitalInput", "DigitalOutput", "RandomOutput", "Counter",
+                "RandomDropper", "Motor")
+
+
+def device_group(names, fmmu=False):
+    """real FastSyncGroup with the named bundled devices linked to a fake terminal; instruction list and map geometry"""
+    from ebpfcat.ebpfcat import FastSyncGroup
+    from ebpfcat import devices as D
+    if list(names) == ["Motor"]:
+        return motor_group()
+    ec = _FakeEC()
+    t = _fake_terminal(ec, fmmu)
+    link = {"AnalogInput": "ain", "AnalogOutput": "aout", "DigitalInput": "din", "DigitalOutput": "dout",
+            "RandomOutput": "dout"}
+    devs = []
+    for n in names:
+        cls = getattr(D, n)
+        devs.append(cls(getattr(t, link[n])) if n in link else cls())
+    with fsim.fake_maps() as created:
+        sg = FastSyncGroup(ec, devs)
+        sg.allocate()
+        sg.assemble()
+    (fd, args), = created
+    return {"sg": sg, "insns": list(sg.opcodes), "var_fd": fd, "var_size": args[2]}
+
+
+def bare_fast_group(layout):
+    """FastSyncGroup with activate() and no devices; `layout` = [[writer?, command value, data bytes, expected wkc], ...]
+    appended to the group's SterilePacket (as harness/vh/props/c21.py does)"""
+    from ebpfcat.ethercat import ECCmd
+
+    def fill(packet):
+        for w, cmd, n, cnt in layout:
+            c = ECCmd(cmd)
+            addr = (0x10000,) if c in (ECCmd.LRD, ECCmd.LWR, ECCmd.LRW) else (7, 0x1000)
+            if w:
+                packet.append_writer(c, b"\0" * n, 0, *addr, counter=cnt)
+            else:
+                packet.append(c, b"\0" * n, 0, *addr, counter=cnt)
+    return fast_group(fill)
